@@ -34,7 +34,7 @@ SAFE = {
     "neg": {"F", "C", "TD", "R"},          # -x: wraps on U, overflows at the minimum of I, TypeError elsewhere
     "invert": {"I", "U", "R", "B"},        # ~x: exact order reversal on every integer width and on bool
     "as_float": {"B", "F", "R"},           # rounding above 2**53 merges distinct integers
-    "as_integer": {"B", "I", "U", "R"},
+    "as_integer": {"B", "I", "R"},           # uint64 values >= 2**63 wrap to negative numbers
     "as_boolean": {"B"},
     "as_string": {"SF", "SV"},
     "as_object": TOP,
@@ -44,8 +44,35 @@ SAFE = {
 }
 
 
+KIND_CLASSES = {"b": {"B"}, "i": {"I", "R"}, "u": {"U"}, "f": {"F"}, "c": {"C"}, "M": {"DT"}, "m": {"TD"}, "U": {"SF"}, "T": {"SV"},
+                "S": {"BY"}, "O": {"O"}}
+# np.issubdtype(x.dtype, T): NumPy's scalar hierarchy (timedelta64 is a signedinteger; bool_ and datetime64 are not numbers)
+SUBDTYPE_CLASSES = {"integer": {"I", "U", "TD", "R"}, "signedinteger": {"I", "TD", "R"}, "unsignedinteger": {"U"},
+                    "floating": {"F"}, "complexfloating": {"C"}, "inexact": {"F", "C"}, "number": {"I", "U", "F", "C", "TD", "R"},
+                    "bool_": {"B"}, "datetime64": {"DT"}, "timedelta64": {"TD"}, "str_": {"SF"}, "bytes_": {"BY"}, "object_": {"O"},
+                    "int64": {"I", "R"}, "float64": {"F"}, "uint64": {"U"}}
+
+
 def _pred_of(test, var):
     """(classes, True) when ``test`` is var.is_X()."""
+    # var.dtype.kind in "biu" / == "f"
+    if isinstance(test, ast.Compare) and len(test.ops) == 1 and norm(test.left) == f"{var}.dtype.kind" \
+            and isinstance(test.ops[0], (ast.In, ast.Eq)):
+        rhs = test.comparators[0]
+        codes = None
+        if isinstance(rhs, ast.Constant) and isinstance(rhs.value, str):
+            codes = list(rhs.value) if isinstance(test.ops[0], ast.In) else [rhs.value]
+        elif isinstance(rhs, (ast.Tuple, ast.List, ast.Set)) and all(isinstance(e, ast.Constant) and isinstance(e.value, str) for e in rhs.elts):
+            codes = [e.value for e in rhs.elts]
+        if codes is not None and all(c in KIND_CLASSES for c in codes):
+            out = set()
+            for c in codes:
+                out |= KIND_CLASSES[c]
+            return frozenset(out)
+    # np.issubdtype(var.dtype, np.integer)
+    if isinstance(test, ast.Call) and norm(test.func) in ("np.issubdtype", "numpy.issubdtype") and len(test.args) == 2 \
+            and norm(test.args[0]) == f"{var}.dtype" and isinstance(test.args[1], ast.Attribute) and test.args[1].attr in SUBDTYPE_CLASSES:
+        return frozenset(SUBDTYPE_CLASSES[test.args[1].attr])
     if isinstance(test, ast.Call) and isinstance(test.func, ast.Attribute) and isinstance(test.func.value, (ast.Name, ast.Subscript)) \
             and norm(test.func.value) == var and not test.args and test.func.attr in PRED:
         return frozenset(PRED[test.func.attr])
@@ -151,7 +178,8 @@ def analyse(fn, var, init=ALL):
     import re as _re
     root = _re.match(r"[A-Za-z_]\w*", var).group(0)
     IN = {n.id: None for n in cfg.nodes}
-    IN[cfg.entry.id] = frozenset() if var.isidentifier() else frozenset(init)
+    is_param = var.isidentifier() and var in getattr(fn, "all_params", [])
+    IN[cfg.entry.id] = frozenset() if (var.isidentifier() and not is_param) else frozenset(init)
     work = [cfg.entry]
     while work:
         n = work.pop()
